@@ -175,6 +175,21 @@ CLAIMED = {
         technique="TLA+ exact-lattice spec + TLC exhaustive case enumeration, replay into the implementation",
         ref="5/C27",
     ),
+    "C18": dict(
+        level="exploration",
+        text="ContactLaw.tla states the discrete Signorini-Coulomb laws per scheme class (velocity level at the midpoint: Moreau, dual "
+             "Stoermer-Verlet; position level: backward Euler; RATTLE's two stages) over abstract values, and TLC model-checks the lemma that the "
+             "prox fixed point the code iterates is equivalent to the complementarity statement (normal and 1-D Coulomb case). Seeded random "
+             "scenes of spheres and planes (rigid bodies / point masses, sphere-plane and sphere-sphere contacts, e_N in [0,1], mu in [0,1], dt over "
+             "two decades, alternating impacts, free-space collisions for the energy clause) are simulated with all four solvers; for every "
+             "stored step and contact the harness recomputes the scheme's quantities, classifies them and TLC evaluates the law on every record.",
+        note="Exploration by trace validation: the decisive comparisons are float thresholds in the harness (solver tolerances 1e-10, zero "
+             "thresholds 1e-8..1e-6, a factor-10 borderline band that is not judged); TLC contributes the law, the lemma and total coverage "
+             "of the recorded steps. Two known findings are listed in known_findings.json (BackwardEuler friction direction, RATTLE energy in "
+             "oblique sphere-sphere impacts). e_F = 0 in all scenes.",
+        technique="TLA+ law spec (lemma model-checked) + TLC trace validation of recorded solver steps",
+        ref="5/C18",
+    ),
 }
 
 NOT_APPLICABLE = {
